@@ -42,6 +42,7 @@ func runC04(rt *rapid.T, st *stats.Collector) {
 		prior:     rapid.SampledFrom([]int{0, 0, 0, 1, 2}).Draw(rt, "earlier-exception-queries"),
 	}
 	fault := rapid.SampledFrom(faultKinds).Draw(rt, "fault")
+	sc.producerWaits = rapid.Bool().Draw(rt, "producer-waits-on-its-context")
 	if fault == "surplus-headers" && sc.name == "select" {
 		sc.name = "insert"
 	}
@@ -70,6 +71,7 @@ func runC04(rt *rapid.T, st *stats.Collector) {
 	surplus := rapid.IntRange(1, 3).Draw(rt, "surplus")
 	chainLen := rapid.IntRange(1, 8).Draw(rt, "exception-chain-length")
 	insertAt := rapid.IntRange(0, 6).Draw(rt, "fault-position")
+	excCutAt := rapid.IntRange(0, 1<<16).Draw(rt, "exception-cut-position") // anywhere in the chain: first element, between elements, a nested one
 
 	g := newGatedRun(rt, sc, func(g *gatedRun) []simnet.Step {
 		steps := saneSteps(g)
@@ -96,8 +98,8 @@ func runC04(rt *rapid.T, st *stats.Collector) {
 			steps = []simnet.Step{itemStep(Item{Kind: "exception", Exc: chain}, nil, 0, nil)}
 		case "exception-cut":
 			// An exception packet that is cut off in the middle (the transport dies while the server reports an error).
-			full := Item{Kind: "exception", Exc: []ref.Exception{{Code: 241, Name: "DB::Exception", Message: "Memory limit exceeded", Stack: "stack"}, {Code: 1, Name: "n", Message: "m"}}}.Encode(54460, 0)
-			k := 1 + insertAt*7%(len(full)-1)
+			full := Item{Kind: "exception", Exc: []ref.Exception{{Code: 241, Name: "DB::Exception", Message: "Memory limit exceeded", Stack: "stack"}, {Code: 1, Name: "n", Message: "m"}, {Code: 2, Name: "n2", Message: "root cause"}}}.Encode(54460, 0)
+			k := 1 + excCutAt%(len(full)-1)
 			steps = []simnet.Step{{Name: "exception-cut", Bytes: func(*ref.ClientStream) []byte { return full[:k] },
 				Then: func(cn *simnet.Conn) { cn.FailReads(errors.New("connection reset by peer")) }}}
 		case "surplus-headers":
@@ -198,6 +200,23 @@ func runC04(rt *rapid.T, st *stats.Collector) {
 			}}}
 		}
 		return nil
+	}
+	// A producer that waits on its context gets no further batch once the query is certain to fail:
+	// the failure itself has to wake it up.
+	emittedBase := len(g.e.srv.Emitted)
+	g.withhold = func() bool {
+		if cutDone {
+			return true
+		}
+		if fault != "exception-anytime" && fault != "exception-cut" {
+			return false
+		}
+		for _, name := range g.e.srv.Emitted[emittedBase:] {
+			if name == "exception" || name == "exception-cut" {
+				return true
+			}
+		}
+		return false
 	}
 	writesBefore := g.e.conn.NumWrites()
 	g.startDo(ctx)
